@@ -387,4 +387,81 @@ theorem csi_ignores_subparams (e : Emu) (f : Nat) (pm : List Param) (hf : f ∈ 
     · rw [csi_102, csi_102, cup_dropSubs]
     · rw [csi_114, csi_114, decstbm_dropSubs]
 
+/-! ### round 3: histories over the extended vocabulary -/
+
+/-- An operation of the extended vocabulary with its token: the round-1/2 vocabulary (SGR included), the one-parameter
+    functions with any parameter list, CUP / HVP / DECSTBM with more than two parameters, RIS. -/
+inductive VocabOpX : EOp → Term.Tok → Prop
+  | base {op : EOp} {tok : Term.Tok} (h : VocabOpAll op tok) : VocabOpX op tok
+  | long {f : Nat} {pm : List Param} {tok : Term.Tok} (hf : f ∈ onePs) (h84 : f = 84 → pm.length ≠ 5)
+      (h : tokOf (.csi [f] (firstOnly pm)) = some tok) : VocabOpX (.csi [f] pm) tok
+  | two {f : Nat} {pm : List Param} {tok : Term.Tok} (hf : f ∈ twoPs) (hl : pm.length > 2)
+      (h : tokOf (.csi [f] (pm.take 2)) = some tok) : VocabOpX (.csi [f] pm) tok
+  | ris : VocabOpX (.esc [99]) .ris
+
+theorem vocabX_not_resize {op : EOp} {tok : Term.Tok} (h : VocabOpX op tok) : ∀ w hh, op ≠ .resize w hh := by
+  cases h with
+  | base h => exact vocab_not_resize h.1
+  | long _ _ _ => intro _ _ hc; cases hc
+  | two _ _ _ => intro _ _ hc; cases hc
+  | ris => intro _ _ hc; cases hc
+
+/-- One step over the extended vocabulary. -/
+theorem emu_refines_step_X {t : Term.T} {e : Emu} {rows cols : Nat} {op : EOp} {tok : Term.Tok}
+    (hv : VocabOpX op tok) (s2 : Sim2 t e rows cols) :
+    ∃ r, emuStep e op = .ok r ∧ Refines2 (Term.step t tok) r.1 rows cols := by
+  cases hv with
+  | base h => exact emu_refines_step_all _ tok h s2
+  | @long f pm tok hf h84 h =>
+    exact emu_refines_step_long _ tok
+      ⟨f, pm, rfl, hf, h84, h, fun ps hps => absurd hps (tokOf_one_not_sgr f _ tok hf h ps), fun g w hc => by cases hc⟩ s2
+  | @two f pm tok hf hl h => exact emu_refines_step_two f pm tok hf hl h s2
+  | ris => exact ris_step s2
+
+inductive VocabHistX : List EOp → List Term.Tok → Prop
+  | nil : VocabHistX [] []
+  | cons {op : EOp} {tok : Term.Tok} {ops : List EOp} {toks : List Term.Tok}
+      (h : VocabOpX op tok) (rest : VocabHistX ops toks) : VocabHistX (op :: ops) (tok :: toks)
+
+theorem run_safe_X (hs : StepSafe) {rows cols : Nat} (d : Dim rows cols) {ops : List EOp} {toks : List Term.Tok}
+    (hv : VocabHistX ops toks) : ∀ {e : Emu}, EmuInv e rows cols → ∃ e', runOps e ops = .ok e' := by
+  induction hv with
+  | nil => intro e _; exact ⟨e, rfl⟩
+  | cons hop _ ih =>
+    intro e hi
+    obtain ⟨r, hr, hi'⟩ := hs e rows cols _ hi d (vocabX_not_resize hop)
+    obtain ⟨e', he'⟩ := ih hi'
+    exact ⟨e', runOps_cons hr he'⟩
+
+/-- All histories over the extended vocabulary. -/
+theorem emu_refines_history_X (hs : StepSafe) {rows cols : Nat} {ops : List EOp} {toks : List Term.Tok}
+    (hv : VocabHistX ops toks) :
+    ∀ {t : Term.T} {e : Emu}, Sim2 t e rows cols →
+      ∃ e', runOps e ops = .ok e' ∧ SpecAllows t toks e' rows cols := by
+  induction hv with
+  | nil => intro t e s2; exact ⟨e, rfl, .done s2⟩
+  | @cons op tok ops toks hop hrest ih =>
+    intro t e s2
+    obtain ⟨r, hr, h2⟩ := emu_refines_step_X hop s2
+    cases hstep : Term.step t tok with
+    | unconstrained =>
+      obtain ⟨r', hr', hi'⟩ := hs e rows cols op s2.sim.inv s2.sim.dim (vocabX_not_resize hop)
+      have : r' = r := by rw [hr] at hr'; cases hr'; rfl
+      subst this
+      obtain ⟨e', he'⟩ := run_safe_X hs s2.sim.dim hrest hi'
+      exact ⟨e', runOps_cons hr he', .unconstrained hstep⟩
+    | accept l =>
+      rw [hstep] at h2
+      obtain ⟨t', hm, s2'⟩ := h2
+      obtain ⟨e', he', hsa⟩ := ih s2'
+      exact ⟨e', runOps_cons hr he', .step hstep hm hsa⟩
+
+theorem emu_refines_session_X (hs : StepSafe) (w h : Int) (hw1 : 1 ≤ w) (hw2 : w ≤ 65535) (hh1 : 1 ≤ h)
+    (hh2 : h ≤ 65535) {ops : List EOp} {toks : List Term.Tok} (hv : VocabHistX ops toks) :
+    ∃ e0 e', Emu.new Fixes.current w h = .ok e0 ∧ runOps e0 ops = .ok e' ∧
+      SpecAllows (Term.T.init h.toNat w.toNat) toks e' h.toNat w.toNat := by
+  have he := new_eq w h (by omega) (by omega)
+  obtain ⟨e', hr, hsa⟩ := emu_refines_history_X hs hv (sim2_init w h hw1 hw2 hh1 hh2 he)
+  exact ⟨_, e', he, hr, hsa⟩
+
 end VaxisModel.Lemmas.EmuRefine
